@@ -53,6 +53,13 @@ def _safe_ms(v, d=-1):
         return d
 
 
+def _cmd_ver(cmd):
+    """the version tag file mode writes into cmd (`simworker NAME vN`): stands for every key the model has no word for"""
+    import re
+    m = re.search(r" v(\d+)$", str(cmd))
+    return int(m.group(1)) if m else 1
+
+
 def ref_signum(v):
     """Reference reading of a signal designation (independent of circus.util.to_signum): number, numeric
     string, or a name of the signal module with or without SIG, any case.  -2 = not a designation."""
@@ -402,7 +409,8 @@ class Sim(object):
         return n
 
     def header(self):
-        return {"cd": int(round(self.check_delay * 1000)) if self.check_delay > 0 else -1,
+        return {"fm": bool(self.file_mode), "file": self.file_records() if self.file_mode else [],
+                "cd": int(round(self.check_delay * 1000)) if self.check_delay > 0 else -1,
                 "wg": int(round(self.warmup_delay * 1000)),
                 "cdt": int(round(self.check_delay * 10)) if self.check_delay > 0 else -1,
                 "wgt": int(round(self.warmup_delay * 10)),
@@ -506,7 +514,7 @@ class Sim(object):
                 "sing": bool(w.singleton), "resp": bool(w.respawn),
                 "G": _safe_ms(w.graceful_timeout), "W": _safe_ms(w.warmup_delay),
                 "ssig": _safe_int(w.stop_signal), "sch": bool(w.stop_children), "od": bool(w.on_demand),
-                "mage": _safe_int(w.max_age), "hup": bool(w.send_hup),
+                "mage": _safe_int(w.max_age), "hup": bool(w.send_hup), "ver": _cmd_ver(w.cmd),
                 "pr": [[k.short(p.pid), int(p.wid), 1 if p.stopping else 0]
                        for p in w.processes.values()]}
 
